@@ -104,12 +104,18 @@ def run(ctx):
     answers = [(b, i, e) for fn, _, b, i, _, e in results if fn is h and e[2] == "Answer"]
     ctx.floor("C02.2", "Delegation in zone_result_helper", len(deleg), 1, exact=True)
     ctx.floor("C02.2", "CNAME in zone_result_helper", len(cname), 1, exact=True)
-    ctx.floor("C02.3", "Answer arms in zone_result_helper", len(answers), 3, exact=True)
+    ctx.floor("C02.3", "Answer constructions in zone_result_helper", len(answers), 1)
     def get_of(variant):
         return lambda fc: fc[0] == "is" and fc[1] == "Some" and A.peel(fc[2])[0] == "call" and A.peel(fc[2])[1].endswith("HashMap::<K, V, S, A>::get") \
             and A.path_str(A.peel(fc[2])[2][0]) == "param3" and A.peel(A.peel(fc[2])[2][1])[0] == "agg" and A.peel(A.peel(fc[2])[2][1])[2] == variant
     def nonempty(fc):
-        return fc[0] == "call" and fc[1].endswith("Vec::<T, A>::is_empty") and fc[3] is False
+        if fc[0] == "call" and fc[1].endswith("Vec::<T, A>::is_empty") and fc[3] is False:
+            return True
+        # `zrs.first()` is Some / `zrs.get(0)` is Some: the set is not empty either
+        if fc[0] == "is" and fc[1] == "Some":
+            pe = A.peel(fc[2])
+            return pe[0] == "call" and (pe[1].endswith("<impl [T]>::first") or pe[1].endswith("<impl [T]>::last"))
+        return False
     def ns_q(x):
         x = A.peel(x)
         return x[0] == "agg" and x[2] == "Record" and A.peel(dict(x[3])["0"])[2] == "NS"
@@ -136,46 +142,67 @@ def run(ctx):
         ctx.bad("C02.2", "helper:precedence", "NS / CNAME lookups not found", h.loc())
 
     # ---------------------------------------------------------------- C02.3
-    arms = {}
-    for b, i, e in answers:
-        facts = hc.facts_on_all_paths(b)
-        qv = sorted({fc[1] for fc in facts if fc[0] == "is" and A.peel(fc[2]) == ("param", 2)})
-        nots = sorted({fc[1] for fc in facts if fc[0] == "isnot" and A.peel(fc[2]) == ("param", 2)})
-        rrs = dict(e[3])["rrs"]
-        if qv == ["Wildcard"]:
-            # rrs = Vec::new() then append(collect(map(iter(values(records)))))
-            apps = [(ab, at) for ab, at in A.call_blocks(h, A.name_endswith("Vec::<T, A>::append")) if b in h.reachable(ab)]
-            ok = False
-            for ab, at in apps:
+    # what the answer's record list holds, per query-type class - whichever way the three cases are written
+    # (three `Answer {..}` constructions, or one construction fed by a `match`, loops or iterator chains)
+    QV = [v["name"] for v in prog.adt(T + "QueryType")["variants"]]
+    def content_of(vec_e, depth=0):
+        """{(source, owner path)} of the `zr.to_rr(owner)` records a freshly created Vec receives; source = 'values' (every
+        record set of the node) or 'get:<key path>' (one record set)"""
+        out = set()
+        fills = A.collection_fills(h, hr, vec_e) or []
+        for fb, args in fills:
+            v = A.peel(args[0])
+            if v[0] == "call" and v[1] == Z + "ZoneRecord::to_rr" and len(v[2]) == 2:
+                src = A.iter_elem_source(v[2][0])
+                kinds = set()
+                for x in A.walk(src if src is not None else v[2][0]):
+                    if x[0] == "call" and x[1].endswith("HashMap::<K, V, S, A>::values") and A.path_str(x[2][0]) == "param3":
+                        kinds.add("values")
+                    if x[0] == "call" and x[1].endswith("HashMap::<K, V, S, A>::get") and A.path_str(x[2][0]) == "param3":
+                        kinds.add("get:%s" % A.path_str(x[2][1]))
+                out.add((",".join(sorted(kinds)) or "?", A.path_str(v[2][1])))
+            else:
+                out.add(("?" + A.show(v)[:40], None))
+        site = A.fresh_collection_site(vec_e)
+        if site is not None and depth < 2:
+            for ab, at in A.vec_tail_appends(h):
                 ae = hr.call_expr(at, ab)
-                mo = map_closure_owner(prog, h, hr, ae[2][1])
-                if mo and A.path_str(mo[1]) == "param1" and any(x[0] == "call" and x[1].endswith("HashMap::<K, V, S, A>::values") and A.path_str(x[2][0]) == "param3" for x in A.walk(mo[0])):
-                    ok = True
-            arms["Wildcard"] = ok
-            ctx.check(ok, "C02.3", "helper:answer:ANY", "all record sets of the node, owner = query name", "ANY answer is not built from every record set", h.loc(b, i))
-        elif qv == ["Record"]:
-            pe = A.peel(rrs)
+                if A.fresh_collection_site(ae[2][0]) == site:
+                    out |= content_of(ae[2][1], depth + 1)          # rrs.append(&mut inner): what inner holds
+        return out
+    leaves = []
+    for b, i, e in answers:
+        st_ = h.blocks[b]["stmts"][i]
+        op = dict(zip(st_["rv"].get("fields", []), st_["rv"].get("ops", []))).get("rrs")
+        l_ = A.root_local(h, op) if op is not None else None
+        srcs = []
+        if l_ is not None:
+            for d in h.defs().get(l_, []):
+                if d[2] != "partial":
+                    srcs.extend(A.value_sources(h, hr, d))
+        if not srcs:
+            srcs = [(b, dict(e[3])["rrs"])]
+        for sb, se in srcs:
+            pe = A.peel(se)
             alts = pe[1] if pe[0] == "phi" else [pe]
-            ok = True
-            seen_get = False
             for a in alts:
-                mo = map_closure_owner(prog, h, hr, a)
-                if mo:
-                    g = [x for x in A.walk(mo[0]) if x[0] == "call" and x[1].endswith("HashMap::<K, V, S, A>::get")]
-                    good = bool(g) and A.path_str(g[0][2][0]) == "param3" and A.path_str(g[0][2][1]) == "param2.<Record>.0" and A.path_str(mo[1]) == "param1"
-                    seen_get = seen_get or good
-                    ok = ok and good
-                else:
-                    ok = ok and A.peel(a)[0] == "call" and A.peel(a)[1].endswith("Vec::<T>::new")
-            arms["Record"] = ok and seen_get
-            ctx.check(ok and seen_get, "C02.3", "helper:answer:Record", "records[qtype's record type], owner = query name, else empty",
-                      "typed answer is built from %s" % A.show(rrs)[:160], h.loc(b, i))
-        else:
-            pe = A.peel(rrs)
-            ok = pe[0] == "call" and pe[1].endswith("Vec::<T>::new")
-            arms["other"] = ok
-            ctx.check(ok, "C02.3", "helper:answer:other", "AXFR/MAILA/MAILB -> empty answer", "other query types answer %s" % A.show(rrs)[:100], h.loc(b, i))
-    ctx.check(set(arms) == {"Wildcard", "Record", "other"}, "C02.3", "helper:answer:arms", "three answer arms (ANY, typed, other)", "answer arms found: %s" % sorted(arms), h.loc())
+                site = A.fresh_collection_site(a)
+                lb = site[1] if site is not None and site[0] == h.key else sb
+                leaves.append((lb, a, (b, i)))
+    arms = {}
+    for lb, a, (b, i) in leaves:
+        pv = A.possible_variants(h, hc, lambda x: A.peel(x) == ("param", 2), QV, lb)
+        cls = "Wildcard" if pv == ["Wildcard"] else ("Record" if pv == ["Record"] else ("other" if pv and "Wildcard" not in pv and "Record" not in pv else "mixed:%s" % pv))
+        cont = content_of(a) if A.fresh_collection_site(a) is not None else {("?" + A.show(a)[:40], None)}
+        arms.setdefault(cls, []).append((cont, lb, (b, i)))
+    okw = bool(arms.get("Wildcard")) and all(c == {("values", "param1")} for c, _, _ in arms.get("Wildcard", []))
+    ctx.check(okw, "C02.3", "helper:answer:ANY", "all record sets of the node, owner = query name", "ANY answer is built from %s" % [sorted(map(str, c)) for c, _, _ in arms.get("Wildcard", [])], h.loc())
+    rec_c = [c for c, _, _ in arms.get("Record", [])]
+    okr = bool(rec_c) and all(c in (set(), {("get:param2.<Record>.0", "param1")}) for c in rec_c) and any(c for c in rec_c)
+    ctx.check(okr, "C02.3", "helper:answer:Record", "records[qtype's record type], owner = query name, else empty", "typed answer is built from %s" % [sorted(map(str, c)) for c in rec_c], h.loc())
+    oko = bool(arms.get("other")) and all(not c for c, _, _ in arms.get("other", []))
+    ctx.check(oko, "C02.3", "helper:answer:other", "AXFR/MAILA/MAILB -> empty answer", "other query types answer %s" % [sorted(map(str, c)) for c, _, _ in arms.get("other", [])], h.loc())
+    ctx.check(set(arms) == {"Wildcard", "Record", "other"}, "C02.3", "helper:answer:arms", "three answer classes (ANY, typed, other)", "answer classes found: %s" % sorted(arms), h.loc())
 
     # ---------------------------------------------------------------- C02.4
     rec = A.call_blocks(zr, A.name_is(ZRR))
